@@ -68,6 +68,10 @@ fn fill(len: usize, i: usize, content: u8) -> Vec<u8> {
     }
 }
 
+/// what an implementation may set aside for the name of the executed file (the kernel copies it into
+/// the same space): arguments this close to the budget may be refused rather than passed
+const PATH_MAX_ROOM: usize = 4096;
+
 fn stack_bytes(s: u8) -> u64 {
     match s {
         0 => 256 << 10,
@@ -277,7 +281,7 @@ pub fn check(ctx: &mut Ctx, c: &Case) -> Outcome {
     // fixed arguments: only where they leave room for the longest argument
     let longest_arg = args.iter().map(|a| a.len()).max().unwrap_or(0);
     let mut fixed_total = c.fixed as usize;
-    if fixed_total + fixed_total / 1000 * 8 + 64 + rec_path().len() + 2 * c.cmd_path as usize + 2048 + 4096 + env_bytes + env.len() * 8 + longest_arg.min(MAX_ARG_STRLEN) + 9 + 4096 > budget(c.stack) {
+    if fixed_total + fixed_total / 1000 * 8 + 64 + rec_path().len() + 2 * c.cmd_path as usize + PATH_MAX_ROOM + 2048 + 4096 + env_bytes + env.len() * 8 + longest_arg.min(MAX_ARG_STRLEN) + 9 + 4096 > budget(c.stack) {
         fixed_total = 0;
     }
     let fixed_args: Vec<OsString> = {
@@ -355,7 +359,7 @@ pub fn check(ctx: &mut Ctx, c: &Case) -> Outcome {
     // An argument within the per-argument limit may still be too large for the whole budget
     // (base command, environment, pointers, headroom): nobody can pass it, and the statement only
     // requires that no rejected command line is built.  `tight(a)`: not certain to fit.
-    let base_cost = 2 * cmd0.len() + 2 + 8 + 16 + 2048 + 4096 + env_bytes + env.len() * 8 + fixed_total + fixed_args.len() * 8;
+    let base_cost = 2 * cmd0.len() + 2 + 8 + 16 + 2048 + 4096 + PATH_MAX_ROOM + env_bytes + env.len() * 8 + fixed_total + fixed_args.len() * 8;
     let tight = |a: &Vec<u8>| a.len() + 1 + 8 + base_cost > b;
     match c.oversize {
         None => {
@@ -480,7 +484,7 @@ fn check_repl(ctx: &mut Ctx, c: &ReplCase) -> Outcome {
     // what certainly fits / certainly does not
     let fits = |line: &[u8]| {
         let ex = expand(line);
-        let total: usize = ex.iter().map(|a| a.len() + 9).sum::<usize>() + rec_path().len() + 9 + 16 + 2048 + 4096;
+        let total: usize = ex.iter().map(|a| a.len() + 9).sum::<usize>() + rec_path().len() + 9 + 16 + 2048 + 4096 + PATH_MAX_ROOM;
         ex.iter().all(|a| a.len() < MAX_ARG_STRLEN) && total <= b
     };
     let impossible = |line: &[u8]| {
